@@ -40,6 +40,21 @@ Proof. vm_compute. reflexivity. Qed.
         ok, log = out["Gen_struct"]
         c.oblige("Gen_struct.constructors_locked (source of Dimension/Prefix/Unit.__new__ abstracts to the locked protocol)", ok, log[-500:])
         c.cov["constructor_structure"] = s["new"]
+    # tie A, second form: each __new__ translated into a program of Model/NewProg.v; the abstract interpretation proved sound in
+    # Proofs/NewProgFacts.v (Props/C20.v: C20_program_safe) accepts all three
+    progs = None
+    try:
+        progs = struct_scan.programs()
+        ptxt = struct_scan.coq_programs(progs) + """
+Lemma constructors_safe : prog_safe dimension_prog && prog_safe prefix_prog && prog_safe unit_prog = true.
+Proof. vm_compute. reflexivity. Qed.
+"""
+        ok, log = c.run_coq({"Gen_newprog": ptxt})["Gen_newprog"]
+        c.oblige("Gen_newprog.constructors_safe (Dimension/Prefix/Unit.__new__, translated instruction by instruction, are accepted by the proved abstract "
+                 "interpretation: one object per key under every schedule, C20_program_safe)", ok, log[-500:])
+        c.cov["constructor_programs"] = {k: [i for i, _ in v["prog"]] for k, v in progs.items()}
+    except struct_scan.Untranslatable as ex:
+        c.oblige("struct_scan.programs (translator of __new__ into Model/NewProg.v instructions)", False, str(ex))
     # tie B / search: every preemption-bounded schedule on the real code
     classes = ["Dimension", "Prefix", "Unit", "UnitMul"]
     if c.tier == "quick":
@@ -74,7 +89,7 @@ Proof. vm_compute. reflexivity. Qed.
         for _ in range(20 if c.tier == "quick" else 200):
             cases.append({"cls": cls, "threads": 3, "schedule": [c.rng.randrange(3) for _ in range(40)]})
     # non-integral prefix exponents, products of SI and IEC prefixes, and chained expressions with a new intermediate
-    for cls in ("PrefixFloat", "PrefixMixed", "DimChain", "UnitChain"):
+    for cls in ("PrefixFloat", "PrefixMixed", "PrefixDecimal", "PrefixDecimalUnit", "DimChain", "UnitChain"):
         for sc in (scheds[:60] if c.tier == "quick" else scheds[::2]):
             cases.append({"cls": cls, "threads": 2, "schedule": sc})
         for sc in fine[:(60 if c.tier == "quick" else 400)]:
@@ -97,6 +112,45 @@ Proof. vm_compute. reflexivity. Qed.
                             f"entries={r['table_entries']}, errors={r['errors']})",
                             {"case": case, "result": r,
                              "how": "echo '{\"cases\":[case]}' | PYTHONPATH=/repo/src /venv/bin/python harness/impl/sched_worker.py"})
+    # tie B for the program model: every schedule observed on the direct constructor calls is replayed on the translated program in
+    # the kernel (same control flow line by line, same threads end up with the same object)
+    if progs is not None:
+        files = {}
+        nrep = 0
+        for cls in ("Dimension", "Prefix", "Unit"):
+            pr = progs[cls]
+            lmap = {}
+            second = {}
+            for idx, (_ins, ln) in enumerate(pr["prog"]):
+                if ln is not None and ln > 0: lmap.setdefault(ln, []).append(idx)
+                if ln is not None and ln < 0: second[-ln] = idx
+            def events(trace):
+                seen, evs = {}, []
+                for i, ln in trace:
+                    if not (pr["first"] <= ln <= pr["last"]): continue
+                    if ln in second:
+                        seen[(i, ln)] = seen.get((i, ln), 0) + 1
+                        if seen[(i, ln)] == 2: evs.append((i, second[ln]))
+                    for idx in lmap.get(ln, []): evs.append((i, idx))
+                return evs
+            terms = []
+            for ch, o in zip(chunks, outs):
+                for case, r in zip(ch, o["results"]):
+                    if case["cls"] != cls or not r.get("trace_full") or r["lines"] > 600 or not r["finished"]: continue
+                    evs = events(r["trace_full"])
+                    obs = clist(("None" if l is None else f"Some {l}%nat") for l in r["labels"])
+                    terms.append(f"({case['threads']}%nat, {clist(f'({i}%nat, {idx}%nat)' for i, idx in evs)}, {obs})")
+            nrep += len(terms)
+            for k in range(0, len(terms), 150):
+                files[f"Run_newprog_{cls}_{k // 150}"] = (struct_scan.coq_programs(progs) +
+                    f"Definition cases : list (nat * list (nat * nat) * list (option nat)) := {clist(terms[k:k + 150])}.\n"
+                    f"Definition agrees (c : nat * list (nat * nat) * list (option nat)) : bool := let '(n, evs, obs) := c in replay_agrees {cls.lower()}_prog n evs obs.\n"
+                    "Definition mm := Eval vm_compute in map fst (filter (fun ic => negb (agrees (snd ic))) (combine (seq 0 (length cases)) cases)).\nPrint mm.\n"
+                    "Lemma traces_replay : mm = [].\nProof. vm_compute. reflexivity. Qed.\n")
+        out = c.run_coq(files)
+        for n, (ok, log) in out.items():
+            c.oblige(f"{n}.traces_replay (observed line schedules replay on the translated program: same control flow, same sharing of objects)", ok, log[-600:])
+        c.cov["schedules_replayed_on_program_model"] = nrep
     c.sample({"case": cases[0]}); c.sample({"case": cases[-1]})
     c.finish(rule="all schedules of two threads with at most 2 (quick) / 3 (thorough) preemptions at source-line granularity "
                   "through Dimension/Prefix/Unit construction and the memoised multiply helper, plus random 3-thread schedules, "
